@@ -19,49 +19,37 @@ Local Open Scope Qc_scope.
 
 (* ===== comb ========================================================================== *)
 
-(* the translated comb (CPython float true division modelled exactly) is the binomial
-   coefficient for every n <= 56 (finite sweep inside the kernel; the bound is sharp) *)
-Theorem C11_comb_spec_small : forall n k : nat, (n <= 56)%nat -> comb n k = binom n k.
-Proof. exact comb_spec_small_lemma. Qed.
-Print Assumptions C11_comb_spec_small.
-
-(* ... and is wrong at (57,25): float rounding (defect 6 of DESIGN section 6) *)
-Theorem C11_comb_refuted : comb 57 25 = 9929472283517788%Z /\ binom 57 25 = 9929472283517787%Z.
-Proof. exact comb_refuted_lemma. Qed.
-Print Assumptions C11_comb_refuted.
+(* the translated comb (n! // (k! (n-k)!), integer floor division) is the binomial coefficient,
+   for ALL n, k.  (Before /repo commit 2370b33 comb went through a float and was wrong from
+   (57,25); that version was refuted here and is re-detected by the check if it returns.) *)
+Theorem C11_comb_spec : forall n k : nat, comb n k = binom n k.
+Proof. exact comb_spec_lemma. Qed.
+Print Assumptions C11_comb_spec.
 
 (* ===== central moments =============================================================== *)
 
-(* for all laws of total mass 1 (weights may even be signed), all K, all orders 2 <= i <= K:
+(* for all laws of total mass 1 (weights may even be signed), all K, all orders 1 <= i <= K:
    the translated conversion with the true binomial yields E[(X - mu)^i] *)
 Theorem C11_centrals_exact :
   forall (L : law) (K : nat) (d : pydict) (i : nat),
-    mass L = 1 -> moments_of L K d -> (2 <= i <= K)%nat ->
+    mass L = 1 -> moments_of L K d -> (1 <= i <= K)%nat ->
     dget (raw_moments_to_centrals_with binom d) i = central L i.
 Proof. exact centrals_exact. Qed.
 Print Assumptions C11_centrals_exact.
 
-(* with Polar's own comb: exact whenever at most 56 moments are converted *)
-Theorem C11_centrals_exact_polar_small :
+(* the same for the function as Polar runs it (its own comb), every K *)
+Theorem C11_centrals_exact_polar :
   forall (L : law) (K : nat) (d : pydict) (i : nat),
-    (K <= 56)%nat -> mass L = 1 -> moments_of L K d -> (2 <= i <= K)%nat ->
+    mass L = 1 -> moments_of L K d -> (1 <= i <= K)%nat ->
     dget (raw_moments_to_centrals d) i = central L i.
-Proof. exact centrals_exact_polar_small. Qed.
-Print Assumptions C11_centrals_exact_polar_small.
+Proof. exact centrals_exact_polar. Qed.
+Print Assumptions C11_centrals_exact_polar.
 
-(* ... and refuted without the bound (X ~ Bernoulli(1/2), i = 57: -127/2^33 instead of 0) *)
-Theorem C11_centrals_refuted :
-  exists (L : law) (K : nat) (d : pydict) (i : nat),
-    is_prob L /\ moments_of L K d /\ (2 <= i <= K)%nat /\
-    dget (raw_moments_to_centrals d) i <> central L i.
-Proof. exact centrals_refuted_lemma. Qed.
-Print Assumptions C11_centrals_refuted.
-
-(* centrals[1] is the mean m1, whereas the first central moment is 0 (finding candidate) *)
-Theorem C11_central1_is_mean :
-  forall (cmb : nat -> nat -> Z) (d : pydict), dget (raw_moments_to_centrals_with cmb d) 1 = dget d 1.
+(* centrals[1] is 0, the first central moment (before /repo commit 437ee40 it was the mean) *)
+Theorem C11_central1_is_zero :
+  forall (cmb : nat -> nat -> Z) (d : pydict), dget (raw_moments_to_centrals_with cmb d) 1 = 0.
 Proof. exact centrals_key1. Qed.
-Print Assumptions C11_central1_is_mean.
+Print Assumptions C11_central1_is_zero.
 Theorem C11_central1_should_be_zero : forall L : law, mass L = 1 -> central L 1 = 0.
 Proof. exact central_1_zero. Qed.
 Print Assumptions C11_central1_should_be_zero.
@@ -88,19 +76,13 @@ Theorem C11_cumulants_are_log_coefficients :
 Proof. intros L K d i. exact (cumulants_are_log_coefficients binom L K d i (fun _ _ _ => eq_refl)). Qed.
 Print Assumptions C11_cumulants_are_log_coefficients.
 
-Theorem C11_cumulants_polar_small :
+(* the same for the function as Polar runs it (its own comb), every K *)
+Theorem C11_cumulants_polar :
   forall (L : law) (K : nat) (d : pydict) (i : nat),
-    (K <= 56)%nat -> mass L = 1 -> moments_of L K d -> (1 <= i <= K)%nat ->
+    mass L = 1 -> moments_of L K d -> (1 <= i <= K)%nat ->
     dget (raw_moments_to_cumulants d) i = cumulant_log (raw L) i.
-Proof. exact cumulants_polar_small. Qed.
-Print Assumptions C11_cumulants_polar_small.
-
-Theorem C11_cumulants_refuted :
-  exists (L : law) (K : nat) (d : pydict) (i : nat),
-    is_prob L /\ moments_of L K d /\ (1 <= i <= K)%nat /\
-    dget (raw_moments_to_cumulants d) i <> cumulant_log (raw L) i.
-Proof. exact cumulants_refuted_lemma. Qed.
-Print Assumptions C11_cumulants_refuted.
+Proof. exact cumulants_polar. Qed.
+Print Assumptions C11_cumulants_polar.
 
 (* all orders: additivity over independent sums, shift invariance, homogeneity *)
 Theorem C11_cumulants_additive :
@@ -219,10 +201,10 @@ Definition d3 (K : nat) : pydict := fst (get_all_moments (raw L3) (fun _ => true
 Example C11_nonvacuous_law : Qc_eqb (mass L3) 1 = true /\ forallb (fun p => Qc_leb 0 (fst p) && Qc_leb 0 (snd p)) L3 = true.
 Proof. split; vm_compute; reflexivity. Qed.
 
-(* raw moments 1, 3, 11, 43; centrals (1,) 2, 4, 14 ; cumulants 1, 2, 4, 2 *)
+(* raw moments 1, 3, 11, 43; centrals 0, 2, 4, 14 ; cumulants 1, 2, 4, 2 *)
 Example C11_nonvacuous_conversions :
   map qpair (map (dget (d3 4)) [1; 2; 3; 4]%nat) = [zp (1) 1; zp (3) 1; zp (11) 1; zp (43) 1]
-  /\ map qpair (map (dget (raw_moments_to_centrals (d3 4))) [1; 2; 3; 4]%nat) = [zp (1) 1; zp (2) 1; zp (4) 1; zp (14) 1]
+  /\ map qpair (map (dget (raw_moments_to_centrals (d3 4))) [1; 2; 3; 4]%nat) = [zp (0) 1; zp (2) 1; zp (4) 1; zp (14) 1]
   /\ map qpair (map (central L3) [2; 3; 4]%nat) = [zp (2) 1; zp (4) 1; zp (14) 1]
   /\ map qpair (map (dget (raw_moments_to_cumulants (d3 4))) [1; 2; 3; 4]%nat) = [zp (1) 1; zp (2) 1; zp (4) 1; zp (2) 1]
   /\ map qpair (map (cumulant_log (raw L3)) [1; 2; 3; 4]%nat) = [zp (1) 1; zp (2) 1; zp (4) 1; zp (2) 1].
